@@ -179,17 +179,20 @@ class C09(F.Spec):
         fs = []
         for g in raw:
             tick = [x for x in g if x.startswith("RSTICK ")]
+            tilts = [int(x.split()[2]) for x in g if x.startswith("VALTILT 0 ")]
+            nval = 0
             for x in g:
                 p = x.split()
                 if p[0] == "CALL" and p[1] == "value" and p[2] == "0":
+                    nval += 1
                     v = int(p[3])
                     v = v - 256 if v > 127 else v
                     if not (v == -1 or 0 <= v <= 100):
                         fs.append(F.Finding("reported-out-of-range", "position %d reported to the server" % v))
-                    if me.get("tt") and len(p) > 5 and len(tick) == 1:
+                    if me.get("tt") and len(tilts) >= nval and len(tick) == 1:
                         # what is reported is the stored value (raw 100..10100 = 0..100 %) of the same callback
                         f = dict(q.split("=") for q in tick[0].split()[2:])
-                        for name, rep, raw_v in (("position", v, int(f["pos"])), ("tilt", int(p[5]) - (256 if int(p[5]) > 127 else 0), int(f["tilt"]))):
+                        for name, rep, raw_v in (("position", v, int(f["pos"])), ("tilt", tilts[nval - 1] - (256 if tilts[nval - 1] > 127 else 0), int(f["tilt"]))):
                             if 100 <= raw_v <= 10100 and abs(rep - (raw_v - 100) / 100.0) > 1.0:
                                 fs.append(F.Finding("reported-differs-from-stored", "%s stored %.2f %% but %d reported to the server" % (
                                     name, (raw_v - 100) / 100.0, rep)))
